@@ -385,14 +385,14 @@ func (o *oracle) after(s *sim, sp *runSpec, pre *preState, outcome string) (stri
 	}
 	// ---- revocations accepted in this run (ground truth + the implementation's own counter)
 	var revokedNow []int
-	if accepted && (full || revOnly) && s.lastRevokedDelta > 0 {
+	if accepted && (full || revOnly) && s.lastRevokedDelta != 0 {
 		var cands []int
 		for _, k := range sp.fetch {
 			if k.revoked() && k.sep() && hasKey(sp.signers, k.id, k.flags) && hasKey(trusted, k.id, k.flags^0x80) && !hasInt(cands, k.id) {
 				cands = append(cands, k.id)
 			}
 		}
-		if int(s.lastRevokedDelta) >= len(cands) {
+		if s.lastRevokedDelta > 0 && int(s.lastRevokedDelta) >= len(cands) {
 			revokedNow = cands
 		} else {
 			// the implementation accepted fewer revocations than the set carries (it
